@@ -26,6 +26,7 @@ ALLOWED_AXIOMS = {
 TRUSTED_BASE = [
     "Coq 8.16.1 kernel (coqc, full .vo builds; vm_compute in comparators; no native_compute)",
     "standard-library axioms only, as printed by Print Assumptions: " + ", ".join(sorted(ALLOWED_AXIOMS)),
+    "Coq's primitive binary64 floats (Floats.PrimFloat.* operations, kernel primitives; no FloatAxioms) in model/PavaFloat.v, the bit-exact twin of the mean PAVA",
     "Coq's primitive Uint63 integers with the standard library's specification axioms (Numbers.Cyclic.Int63.*): used only by corr/Decode.v to read float mantissas in generated case files; they appear in coqchk's cone of files importing it, never under a theorem",
     "translator translate/pyexpr.py + gen_r.py (Python ast -> Gallina), validated by round trip against the implementation",
     "skeleton/leaf extraction translate/skeleton.py and the committed skeleton files",
@@ -172,7 +173,17 @@ def compile_props(ctx, pid):
             axs = []
         else:
             axs = [a for a in re.findall(r"^([A-Za-z_][A-Za-z0-9_'.]*)\s*:", b, re.M) if a != "Axioms"]
-        bad = [a for a in axs if a not in ALLOWED_AXIOMS]
+        # Coq prints its primitive types and operations (float, PrimFloat.*, PrimInt63.*) under "Axioms:"; they are
+        # kernel primitives, not assumptions (no FloatAxioms / Uint63 specification axiom is among the allowed names)
+        # recognised by their TYPE: only float / int / bool / comparison / float_class / Set occur in it
+        decl = dict(re.findall(r"^([A-Za-z_][A-Za-z0-9_'.]*)\s*:\s*(.*?)(?=^\S|\Z)", b, re.M | re.S))
+        def primitive(a):
+            t = decl.get(a, "")
+            toks = set(re.findall(r"[A-Za-z_][A-Za-z0-9_'.]*", t))
+            return bool(toks) and toks <= {"float", "int", "bool", "Set", "comparison", "float_comparison", "float_class", "PrimFloat.float", "PrimInt63.int",
+                                           "FloatClass.float_class", "PrimFloat.float_comparison", "PrimFloat.float_class"}
+        prim = [a for a in axs if primitive(a)]
+        bad = [a for a in axs if a not in ALLOWED_AXIOMS and a not in prim]
         ctx.assumptions[n] = axs
         if not ctx.ob(f"theorem {n}", "theorem", not bad, "axioms: " + ", ".join(axs)):
             allok = False
@@ -193,11 +204,13 @@ def coqchk(ctx, pid):
     # Coq's primitive 63-bit integers and the specification axioms the standard library declares for them
     # (Numbers.Cyclic.Int63.*) appear in the cone of every file that imports corr/Decode.v (case-file decoding);
     # they are the standard library's, are named in the trusted base, and never occur under Print Assumptions of a theorem
-    prim = sorted(a for a in short if a.startswith("Numbers.Cyclic.Int63."))
+    # ... and Coq's primitive float operations (Floats.PrimFloat.*: kernel primitives used by model/PavaFloat.v, the bit-exact
+    # binary64 twin; the specification axioms of Floats.FloatAxioms are NOT among them and would be flagged)
+    prim = sorted(a for a in short if a.startswith("Numbers.Cyclic.Int63.") or a.startswith("Floats.PrimFloat."))
     short = {a for a in short if a not in prim}
     bad = [a for a in short if a not in ALLOWED_AXIOMS]
     clean = all("<none>" in m.group(i) for i in (2, 3, 4))
-    ctx.assumptions["coqchk -o (whole dependency cone)"] = sorted(short) + (["Numbers.Cyclic.Int63.* (%d stdlib primitives/spec axioms via corr/Decode.v)" % len(prim)] if prim else [])
+    ctx.assumptions["coqchk -o (whole dependency cone)"] = sorted(short) + (["Numbers.Cyclic.Int63.* / Floats.PrimFloat.* (%d stdlib primitives and Uint63 specification axioms via corr/Decode.v and model/PavaFloat.v)" % len(prim)] if prim else [])
     return ctx.ob("coqchk re-check of the property file and its dependency cone (axioms within the allowed list; no type-in-type, unsafe fixpoints or assumed positivity)",
                   "theorem", not bad and clean, out[-1200:])
 
